@@ -27,7 +27,7 @@ type corsCfg struct {
 	// ViaGroup: the earlier options are the group's, this one is given to Group.New.
 	Before   []corsCfg `json:"before,omitempty"`
 	ViaGroup bool      `json:"viagroup,omitempty"`
-	Table    int       `json:"table"` // 0 = plain table, 1 = table reached through a history, WithTrace
+	Table    int       `json:"table"`             // 0 = plain table, 1 = table reached through a history, WithTrace
 	Inherit  bool      `json:"inherit,omitempty"` // the option is the group's; the router is made by Group.New without options (the option list is built twice)
 }
 
@@ -67,6 +67,10 @@ func corsConfigs() []corsCfg {
 		}
 	}
 	out = append(out, corsCfg{Origins: []string{"https://a"}, MaxAge: -2})
+	// lists that are not sorted and contain a duplicate: whatever normalisation mux does must not be visible
+	out = append(out, corsCfg{Origins: []string{"https://b", "https://a"}, Headers: []string{"X-Tok", "Content-Type"}, Exposed: []string{"X-F", "X-E"}, MaxAge: 600, Cred: true},
+		corsCfg{Origins: []string{"https://b", "https://a", "https://b"}, Headers: []string{"X-Tok", "Content-Type", "X-Tok"}, MaxAge: 600},
+		corsCfg{Origins: []string{"https://b", "https://a", "https://b"}, Headers: []string{"Content-Type"}, Cred: true, Inherit: true})
 	// an allow-list whose byte order differs from the order of its lower-cased form
 	for _, o := range [][]string{{"*"}, {"https://a", "https://b"}} {
 		for _, cr := range []bool{false, true} {
@@ -297,6 +301,15 @@ func corsJob(raw json.RawMessage) (any, error) {
 	// and an implementation that edits them must not be able to edit the oracle's idea of what was configured
 	var handed corsCfg
 	json.Unmarshal(mustJSON(it.Cfg), &handed)
+	// ... and the slices it gets are views of longer caller-owned lists (one more element behind each): whatever
+	// mux does with its configuration, the caller's lists keep their content and order
+	guard := func(s []string) []string {
+		if s == nil {
+			return nil
+		}
+		return append(append(make([]string, 0, len(s)+1), s...), "caller-owned-tail")[:len(s)]
+	}
+	handed.Origins, handed.Headers, handed.Exposed = guard(handed.Origins), guard(handed.Headers), guard(handed.Exposed)
 	c := it.Cfg
 	rep := func(clause, class string, q corsReq, obs, exp string) {
 		label := q.req().String()
@@ -310,6 +323,14 @@ func corsJob(raw json.RawMessage) (any, error) {
 	invalid := (anyOrigin && c.Cred) || c.MaxAge < -1
 	r, pv, bad := corsRouter(handed)
 	out.Evals++
+	for _, pair := range [][2][]string{{handed.Origins, c.Origins}, {handed.Headers, c.Headers}, {handed.Exposed, c.Exposed}} {
+		if pair[0] == nil {
+			continue
+		}
+		if got, want := strings.Join(pair[0][:len(pair[0])+1], " | "), strings.Join(append(append([]string{}, pair[1]...), "caller-owned-tail"), " | "); got != want {
+			rep(it.Prop+".config", "caller-slices-modified", corsReq{}, "after NewRouter the list handed to WithCORS reads: "+got, "as handed over: "+want)
+		}
+	}
 	if invalid {
 		if !bad {
 			rep(it.Prop+".config", "invalid-config-accepted", corsReq{}, "NewRouter returned normally", "panic with an error value ('*' with credentials, or maxAge < -1)")
